@@ -77,6 +77,14 @@ pub fn sigma() -> Vec<Op> {
 
 const N_ATOMIC: usize = 33;
 
+/// C03 reuses this explorer for the "quiescent after any schedule" half of its quantifier: only the
+/// integrity invariants are evaluated then, and reported under C03's name
+static INTEGRITY_ONLY: std::sync::atomic::AtomicBool = std::sync::atomic::AtomicBool::new(false);
+static PARTIAL_SKIPPED: AtomicU64 = AtomicU64::new(0);
+fn integrity_only() -> bool {
+    INTEGRITY_ONLY.load(Ordering::Relaxed)
+}
+
 fn multi_step(op: &Op) -> bool {
     matches!(op, Op::Chmod(..) | Op::ChmodB(..) | Op::Chown(..) | Op::ChownB(..) | Op::MkfileM(..) | Op::WriteHandle(..) | Op::AppendHandle(..))
 }
@@ -195,6 +203,12 @@ fn check_execution(init_idx: usize, sig: &[Op], prog: &Prog, e: &Execution, seq:
             dump.files.iter().map(|f| (f.key.clone(), json::bytes_repr(&f.data))).collect::<Vec<_>>()
         )
     };
+    if integrity_only() {
+        for (code, detail) in invariants::check(&dump) {
+            vio(&format!("C03 quiescent-state {} {}", code, name), || format!("{}: {}", detail, describe()), case);
+        }
+        return format!("{:?}|{:?}", outs, dump.files.iter().map(|f| (&f.key, &f.data)).collect::<Vec<_>>());
+    }
     // (a) every call returned without panic / nested acquisition / poison
     for (t, r) in e.recs.iter().enumerate() {
         if r.len() != prog[t].len() {
@@ -217,8 +231,14 @@ fn check_execution(init_idx: usize, sig: &[Op], prog: &Prog, e: &Execution, seq:
     for (code, detail) in invariants::check(&dump) {
         vio(&format!("C04 quiescent-state {} {}", code, name), || format!("{}: {}", detail, describe()), case);
     }
-    // (b) linearizability against the code itself
-    if lin {
+    // (b) linearizability against the code itself. A multi-entry call (copy, remove_all) that fails half way
+    // leaves a partial result that depends on the hash order of the entry map, which differs between the
+    // instances the sequential outcomes were computed on: such executions are held to (a) and (d) only
+    let partial = e.recs.iter().enumerate().any(|(t, r)| r.iter().enumerate().any(|(i, x)| !x.out.ok && crate::engines::space::order_sensitive(&sig[prog[t][i]])));
+    if partial {
+        PARTIAL_SKIPPED.fetch_add(1, Ordering::Relaxed);
+    }
+    if lin && !partial {
         let matches: Vec<&SeqRes> = seq.iter().filter(|r| r.outs == outs && r.dump == dump).collect();
         if matches.is_empty() {
             vio(
@@ -278,7 +298,7 @@ fn new_totals() -> Totals {
 fn run_program(ex: &Explorer, init_idx: usize, sig: &[Op], prog: &Prog, tot: &Totals, bound: Option<u32>, cap: u64) -> Result<(), String> {
     let setup = &inits()[init_idx].1;
     let programs: Vec<Vec<Op>> = prog.iter().map(|p| p.iter().map(|&i| sig[i].clone()).collect()).collect();
-    let lin = !programs.iter().flatten().any(multi_step);
+    let lin = !integrity_only() && !programs.iter().flatten().any(multi_step);
     // sequential outcomes, computed twice on independently built instances (different hash seeds)
     let (seq, deterministic) = if lin {
         let a = seq_outcomes(setup, sig, prog);
@@ -409,6 +429,101 @@ fn families(tier: Tier) -> Vec<Family> {
     f
 }
 
+thread_local! {
+    static CUR_PROGRAM: std::cell::RefCell<(String, String, String)> = const { std::cell::RefCell::new((String::new(), String::new(), String::new())) };
+}
+
+fn install_stall_handler(ctx: &Ctx) {
+    let prop = ctx.prop.clone();
+    let _ = crate::engines::sched::ON_STALL.set(Box::new(move |msg: String| {
+        // runs on the explorer thread that set CUR_PROGRAM
+        let (text, names, case) = CUR_PROGRAM.with(|c| c.borrow().clone());
+        let sig = format!("{} call-does-not-return program={}", prop, names);
+        let detail = format!("program [{}]: {}", text, msg);
+        eprintln!("HANG: {}", detail);
+        let case = json::parse(&case).unwrap_or(J::Null);
+        vio(&sig, move || detail, move || case);
+        std::process::exit(crate::props::hang_exit(&prop, &sig));
+    }));
+}
+
+fn explore_families(ctx: &Ctx, fams: Vec<Family>, sig: &[Op], tot: &Totals, machinery: &Mutex<Vec<String>>, fam_json: &mut Vec<J>) {
+    install_stall_handler(ctx);
+    let slots = (ctx.threads * 3 / 2).max(1);
+    for fam in fams {
+        let before = (tot.programs.load(Ordering::Relaxed), tot.schedules.load(Ordering::Relaxed));
+        let fam_inits: Vec<usize> = fam.inits.clone().unwrap_or_else(|| (0..inits().len()).collect());
+        let work: Vec<(usize, &Prog)> = fam_inits.iter().flat_map(|&i| fam.progs.iter().map(move |p| (i, p))).collect();
+        let next = std::sync::atomic::AtomicUsize::new(0);
+        std::thread::scope(|sc| {
+            for slot_id in 0..slots {
+                let (next, work, sig, tot, machinery, fam) = (&next, &work, &sig, &tot, &machinery, &fam);
+                sc.spawn(move || {
+                    let ex = Explorer::new(3);
+                    loop {
+                        let k = next.fetch_add(1, Ordering::Relaxed);
+                        if k >= work.len() {
+                            break;
+                        }
+                        let (init_idx, prog) = work[k];
+                        crate::common::crumb::set(
+                            slot_id,
+                            &J::obj([
+                                ("init", J::i(init_idx as i64)),
+                                ("program_idx", J::arr(prog.iter().map(|p| J::arr(p.iter().map(|&i| J::i(i as i64)))))),
+                                ("program", J::s(prog_name(&sig, prog))),
+                                ("names", J::s(prog_sig(&sig, prog))),
+                            ])
+                            .to_string(),
+                        );
+                        CUR_PROGRAM.with(|c| {
+                            *c.borrow_mut() = (
+                                prog_name(&sig, prog),
+                                prog_sig(&sig, prog),
+                                J::obj([("part", J::s("hang")), ("where", J::s(prog_name(&sig, prog))), ("init", J::i(init_idx as i64)), ("program_idx", J::arr(prog.iter().map(|p| J::arr(p.iter().map(|&i| J::i(i as i64))))))]).to_string(),
+                            )
+                        });
+                        if let Err(e) = run_program(&ex, init_idx, &sig, prog, &tot, fam.bound, fam.cap) {
+                            machinery.lock().unwrap().push(format!("{} [{}]", e, prog_name(&sig, prog)));
+                        }
+                    }
+                });
+            }
+        });
+        let after = (tot.programs.load(Ordering::Relaxed), tot.schedules.load(Ordering::Relaxed));
+        println!("  family {}: {} programs, {} schedules", fam.name, after.0 - before.0, after.1 - before.1);
+        fam_json.push(J::obj([
+            ("family", J::s(fam.name)),
+            ("programs", J::i(after.0 - before.0)),
+            ("schedules", J::i(after.1 - before.1)),
+            ("preemption_bound", match fam.bound {
+                Some(b) => J::i(b as i64),
+                None => J::s("unbounded"),
+            }),
+        ]));
+    }
+}
+
+/// the schedule half of C03: every schedule of the quick families, integrity invariants at quiescence
+pub fn explore_integrity(ctx: &Ctx) -> Result<(u64, u64, Vec<J>), String> {
+    INTEGRITY_ONLY.store(true, Ordering::Relaxed);
+    let sig = sigma();
+    let tot = new_totals();
+    let machinery: Mutex<Vec<String>> = Mutex::new(vec![]);
+    let mut fam_json = vec![];
+    explore_families(ctx, families(Tier::Quick), &sig, &tot, &machinery, &mut fam_json);
+    let mach = machinery.lock().unwrap();
+    if !mach.is_empty() {
+        return Err(format!("schedule replay diverged (nondeterminism not owned by the scheduler): {}", mach[0]));
+    }
+    Ok((tot.programs.load(Ordering::Relaxed), tot.schedules.load(Ordering::Relaxed), fam_json))
+}
+
+pub fn replay_integrity(ctx: &Ctx, p: &std::path::Path) -> i32 {
+    INTEGRITY_ONLY.store(true, Ordering::Relaxed);
+    replay(ctx, p)
+}
+
 pub fn run(ctx: &Ctx) -> i32 {
     quiet_panics();
     if let Some(p) = &ctx.replay {
@@ -443,51 +558,7 @@ pub fn run(ctx: &Ctx) -> i32 {
     let mut fam_json = vec![];
     // one explorer (3 worker threads) per slot; hand-off is latency bound so oversubscribe mildly
     let slots = (ctx.threads * 3 / 2).max(1);
-    for fam in families(ctx.tier) {
-        let before = (tot.programs.load(Ordering::Relaxed), tot.schedules.load(Ordering::Relaxed));
-        let fam_inits: Vec<usize> = fam.inits.clone().unwrap_or_else(|| (0..inits().len()).collect());
-        let work: Vec<(usize, &Prog)> = fam_inits.iter().flat_map(|&i| fam.progs.iter().map(move |p| (i, p))).collect();
-        let next = std::sync::atomic::AtomicUsize::new(0);
-        std::thread::scope(|sc| {
-            for slot_id in 0..slots {
-                let (next, work, sig, tot, machinery, fam) = (&next, &work, &sig, &tot, &machinery, &fam);
-                sc.spawn(move || {
-                    let ex = Explorer::new(3);
-                    loop {
-                        let k = next.fetch_add(1, Ordering::Relaxed);
-                        if k >= work.len() {
-                            break;
-                        }
-                        let (init_idx, prog) = work[k];
-                        crate::common::crumb::set(
-                            slot_id,
-                            &J::obj([
-                                ("init", J::i(init_idx as i64)),
-                                ("program_idx", J::arr(prog.iter().map(|p| J::arr(p.iter().map(|&i| J::i(i as i64)))))),
-                                ("program", J::s(prog_name(&sig, prog))),
-                                ("names", J::s(prog_sig(&sig, prog))),
-                            ])
-                            .to_string(),
-                        );
-                        if let Err(e) = run_program(&ex, init_idx, &sig, prog, &tot, fam.bound, fam.cap) {
-                            machinery.lock().unwrap().push(format!("{} [{}]", e, prog_name(&sig, prog)));
-                        }
-                    }
-                });
-            }
-        });
-        let after = (tot.programs.load(Ordering::Relaxed), tot.schedules.load(Ordering::Relaxed));
-        println!("  family {}: {} programs, {} schedules", fam.name, after.0 - before.0, after.1 - before.1);
-        fam_json.push(J::obj([
-            ("family", J::s(fam.name)),
-            ("programs", J::i(after.0 - before.0)),
-            ("schedules", J::i(after.1 - before.1)),
-            ("preemption_bound", match fam.bound {
-                Some(b) => J::i(b as i64),
-                None => J::s("unbounded"),
-            }),
-        ]));
-    }
+    explore_families(ctx, families(ctx.tier), &sig, &tot, &machinery, &mut fam_json);
     let mach = machinery.lock().unwrap();
     if !mach.is_empty() {
         eprintln!("machinery: schedule replay diverged (nondeterminism not owned by the scheduler): {}", mach[0]);
@@ -505,6 +576,7 @@ pub fn run(ctx: &Ctx) -> i32 {
         ("programs_with_more_than_one_distinct_outcome", J::i(tot.colliding_programs.load(Ordering::Relaxed))),
         ("max_distinct_outcomes_of_one_program", J::i(tot.max_outcomes.load(Ordering::Relaxed))),
         ("programs_dropped_hash_order_dependent", J::i(tot.dropped_order_dependent.load(Ordering::Relaxed))),
+        ("schedules_with_a_failed_multi_entry_call_not_compared", J::i(PARTIAL_SKIPPED.load(Ordering::Relaxed))),
         ("programs_hitting_the_schedule_cap", J::i(tot.capped_programs.load(Ordering::Relaxed))),
         ("families", J::Arr(fam_json)),
         ("exhaustive", J::Bool(tot.capped_programs.load(Ordering::Relaxed) == 0)),
